@@ -12,6 +12,7 @@ import (
 )
 
 type Engine struct {
+	writeMemo   map[*ssa.Function]map[string]heapTypeInfo
 	prog        *ssa.Program
 	pkgs        []*packages.Package
 	pkgByPath   map[string]*packages.Package
@@ -66,6 +67,56 @@ func (e *Engine) FindFunc(pkgPath, short string) *ssa.Function {
 func (e *Engine) NewRun(fn *ssa.Function) *FuncRun {
 	return &FuncRun{eng: e, w: NewWorld(), fn: fn, names: map[string]int{}, assumed: map[string]bool{}, allWrites: newWriteSet(), allocTop: "AllocBase", stats: map[string]int{},
 		freshHeapWrites: map[string]bool{}, oldHeapWrites: map[string]bool{}, freshRefs: map[string]bool{}, ordCache: map[*ssa.Function]map[*ssa.CallCommon]int{}}
+}
+
+// inferredWrites runs the body of fn in scouting mode and returns the content heaps
+// (slice elements, pointer cells) it may write, with their sorts. Used at call sites so that the
+// frame of a contract need not list them.
+func (e *Engine) inferredWrites(fn *ssa.Function) map[string]heapTypeInfo {
+	if e.writeMemo == nil {
+		e.writeMemo = map[*ssa.Function]map[string]heapTypeInfo{}
+	}
+	if m, ok := e.writeMemo[fn]; ok {
+		return m
+	}
+	e.writeMemo[fn] = map[string]heapTypeInfo{} // recursion guard
+	out := map[string]heapTypeInfo{}
+	if len(fn.Blocks) > 0 {
+		fr := e.NewRun(fn)
+		fr.callsiteSeen = map[string]bool{}
+		fr.callOrdGlobal = map[string]int{}
+		fr.scout = 1
+		f := fr.newFrame(fn, nil)
+		fr.topFrame = f
+		st := &State{reach: "true", cells: map[cellKey]Val{}, heaps: map[string]string{}}
+		for _, p := range fn.Params {
+			srt := fr.w.SortOf(p.Type())
+			v := Val{T: fr.fresh(srt, "p_"+p.Name()), S: srt}
+			f.regs[p] = v
+			f.params = append(f.params, v)
+		}
+		for _, fv := range fn.FreeVars {
+			if !isStaticFreeVar(fv) {
+				f.regs[fv] = Val{T: fr.fresh(sInt, "fv_"+fv.Name()), S: sInt}
+			}
+		}
+		f.entry = st.clone()
+		func() {
+			defer func() { recover() }()
+			fr.execFunction(f, st)
+		}()
+		for h := range fr.oldHeapWrites {
+			if isContentHeap(h) {
+				out[h] = fr.w.heapTypes[h]
+			}
+		}
+	}
+	e.writeMemo[fn] = out
+	return out
+}
+
+func isContentHeap(h string) bool {
+	return strings.HasPrefix(h, "Elem_") || strings.HasPrefix(h, "Cell_")
 }
 
 // binding helpers ------------------------------------------------------------------------
@@ -166,8 +217,25 @@ func (fr *FuncRun) applyContract(f *Frame, st *State, fc *FuncContract, callee *
 			fr.heapHavoc(st, h)
 		}
 	}
-	if fc.Thread {
-		// calling a thread function synchronously is unusual; treat like any function
+	if callee != nil {
+		iw := fr.eng.inferredWrites(callee)
+		var hs []string
+		for h := range iw {
+			hs = append(hs, h)
+		}
+		sort.Strings(hs)
+		for _, h := range hs {
+			info := iw[h]
+			if info.t == nil {
+				continue
+			}
+			if info.kind == "elem" {
+				fr.w.ElemHeap(info.t)
+			} else {
+				fr.w.CellHeap(info.t)
+			}
+			fr.heapHavoc(st, h)
+		}
 	}
 	// results
 	rv := fr.havocResults(st, sig.Results(), name)
@@ -604,7 +672,7 @@ func (e *Engine) VerifyFunction(fn *ssa.Function) *FuncResult {
 		}
 		var bad []string
 		for h := range fr.allWrites.heaps {
-			if !allowed[h] && !fr.freshOnlyHeap(h) {
+			if !allowed[h] && !fr.freshOnlyHeap(h) && !isContentHeap(h) {
 				bad = append(bad, h)
 			}
 		}
